@@ -54,7 +54,7 @@ def hist(chunks, ending, polls):
 
 class P(Property):
     id = 'C19'
-    gen_modules = ['gen_varint', 'gen_codes', 'gen_webtransport']
+    gen_modules = ['gen_varint', 'gen_codes', 'gen_webtransport', 'gen_buflist']
     properties_v = 'Properties/C19.v'
     model_targets = ['Model/WebTransport.vo', 'Spec/WTSpec.vo']
     extract_v = 'Extract/ExtractC19.v'
@@ -65,7 +65,7 @@ class P(Property):
             'transport accepting 1,2,3 or all bytes per grant. wt.recv: peer-opened bidi (0x41) and uni (0x54) streams, header in every '
             'varint form, bytes header++payload(0..6) cut at every offset / one chunk / byte by byte (thorough: every composition of '
             'header<=9 + payload<=4), polls between arrivals at none/all/seeded positions, FIN / RESET / still open, poll_data and AsyncRead '
-            'with 1..8 byte buffers, tokio AsyncRead with 1..8 byte ReadBufs, bidi streams also through split() (receive half), every mode crossed with payload-in-the-header-chunk / FIN / RESET / open / polls, headers naming another session id, two uni streams pending at once (wt.recv2), uni stream before or after the CONNECT, extension on/off, truncated headers. '
+            'with 1..8 byte buffers, tokio AsyncRead with 1..8 byte ReadBufs, bidi streams also through split() (receive half), every mode crossed with payload-in-the-header-chunk / FIN / RESET / open / polls, headers naming another session id, two uni streams pending at once (wt.recv2), 2..4 uni and bidi streams pending together with various transport ids (wt.multi), deliveries handed over as non-contiguous Bufs of 1/2/3/7/500-byte segments (g<n>), payloads up to 1500 (thorough 70000) bytes, several open_bi/open_uni on one session with and without open credit (wt.open2), uni stream before or after the CONNECT, extension on/off, truncated headers. '
             'non-trivial = distinct cases in which a session was established and (wt.recv) at least the first header byte arrived')
 
     trusted_extra = [
@@ -142,6 +142,8 @@ class P(Property):
         out += self.cross_cases(tier, rng)
         out += self.other_session_cases(rng)
         out += self.two_stream_cases(tier, rng)
+        out += self.seg_and_size_cases(tier, rng)
+        out += self.multi_cases(tier, rng)
         return out
 
     def cross_cases(self, tier, rng):
@@ -178,6 +180,88 @@ class P(Property):
                     for lens in ([len(data)], [1] * len(data)):
                         for mode in ('d', 't2') + (('sd',) if kind == 'bi' else ()):
                             out.append('wt.recv %s %d 0 1 0 %s %s' % (kind, s, mode, hist(cut(data, lens), 'F', set(range(len(lens))))))
+        return out
+
+    def seg_and_size_cases(self, tier, rng):
+        """the transport hands h3 non-contiguous buffers (g<n> = SimQuic SEG<n>); larger payloads"""
+        out = []
+        base_modes = ['d', 'r1', 'r3', 'r8', 't2', 't8']
+        for kind, sig in (('uni', 0x54), ('bi', 0x41)):
+            modes = base_modes + (['sd', 'st4'] if kind == 'bi' else [])
+            for s in (8, 4 * 2 ** 14):
+                hdr = vi(sig) + vi(s)
+                for plen in (0, 3, 5):
+                    payload = bytes((0xb0 + i) & 0xff for i in range(plen))
+                    data = hdr + payload
+                    n, hl = len(data), len(hdr)
+                    for lens in ([n], [hl + 1, plen - 1] if plen > 1 else [1, n - 1], [2, n - 2]):
+                        chunks = cut(data, [l for l in lens if l > 0])
+                        for g in (1, 2, 3):
+                            for mode in modes:
+                                for ending in ('F', ''):
+                                    h = hist(chunks, ending, set() if g != 2 else set(range(-1, len(chunks))))
+                                    out.append('wt.recv %s %d 0 1 %d %s g%d,%s' % (kind, s, 1 if (kind == 'uni' and g == 3) else 0, mode, g, h))
+            # payload sizes beyond a few bytes: in the header chunk, and following in chunks of 1200
+            for size in (64, 300, 1500) + ((5000, 70000) if tier != 'quick' else ()):
+                payload = bytes(rng.getrandbits(8) for _ in range(size))
+                hdr = vi(sig) + vi(8)
+                for first in (0, 1, min(size, 1200)):
+                    chunks = [hdr + payload[:first]] + cut(payload[first:], [min(1200, size - first - k) for k in range(0, size - first, 1200)])
+                    chunks = [c for c in chunks if c]
+                    for mode, g in (('d', 0), ('r8', 0), ('t1500', 0), ('d', 7), ('t64', 500), ('sd' if kind == 'bi' else 'r100', 3)):
+                        pre = 'g%d,' % g if g else ''
+                        out.append('wt.recv %s 8 0 1 0 %s %s%s' % (kind, mode, pre, hist(chunks, 'F', {0} if g else set())))
+        for g in (1, 2):
+            out.append('wt.recv2 8 1 d g%d,a:c405408aabbcc,b:c40540cdd,a:F,p,b:R3' % g)
+            out.append('wt.multi 8 1 t2 g%d,12:c404108aabbcc,14:c405408dd,p,12:F,14:F' % g)
+        return out
+
+    def multi_cases(self, tier, rng):
+        """uni AND bidi streams pending together, two and three bidi streams, transport ids other than 6 / 10 / S+4;
+        several streams opened one after the other on one session, with and without open credit (G / H)"""
+        out = []
+        uni_ids = [6, 10, 14, 18, 4002, 2 ** 32 + 2]
+        bi_ids = [12, 16, 20, 4 * 2 ** 14 + 4, 2 ** 32]
+        uni_shapes = [(vi(0x54) + vi(8) + b'\xa1\xa2\xa3', 'F'), (vi(0x54) + vi(12) + b'\xb1', 'R9'), (vi(0x54) + vi(8) + b'\xc1', ''),
+                      (vi(0x54) + vi(8), ''), (vi(0x54)[:1], ''), (vi(0x54), 'F'), (vi(0x21) + b'\x01', 'F'), (b'', '')]
+        bi_shapes = [(vi(0x41) + vi(8) + b'\xd1\xd2\xd3', 'F'), (vi(0x41) + vi(16) + b'\xe1', 'R4'), (vi(0x41) + vi(8) + b'\xf1\xf2', ''),
+                     (vi(0x41) + vi(8), ''), (vi(0x41)[:1], ''), (vi(0x41) + vi(4 * 2 ** 14)[:2], ''), (b'', '')]
+        n = 350 if tier == 'quick' else 4000
+        for k in range(n):
+            nu, nb = rng.choice([(1, 1), (1, 1), (0, 2), (2, 1), (1, 2), (0, 3), (2, 2)])
+            ids = rng.sample(uni_ids, nu) + rng.sample(bi_ids, nb)
+            queues = []
+            for sid in ids:
+                d, e = rng.choice(uni_shapes if sid & 2 else bi_shapes)
+                mode = rng.choice(['one', 'bytes', 'rand'])
+                if not d:
+                    pcs = []
+                elif mode == 'one':
+                    pcs = [d]
+                elif mode == 'bytes':
+                    pcs = cut(d, [1] * len(d))
+                else:
+                    lens, rest = [], len(d)
+                    while rest:
+                        x = rng.randint(1, rest)
+                        lens.append(x)
+                        rest -= x
+                    pcs = cut(d, lens)
+                q = ['%d:c%s' % (sid, c.hex()) for c in pcs] + (['%d:%s' % (sid, e)] if e else [])
+                queues.append(q or ['%d:o' % sid])
+            its = ['g%d' % rng.choice([1, 2])] if rng.random() < 0.25 else []
+            while any(queues):
+                q = rng.choice([q for q in queues if q])
+                its.append(q.pop(0))
+                if rng.random() < 0.35:
+                    its.append('p')
+            en = 0 if rng.random() < 0.12 else 1
+            out.append('wt.multi 8 %d %s %s' % (en, rng.choice(['d', 'r2', 't2', 't8']), ','.join(its)))
+        for s in (0, 8, 4 * 2 ** 14, 2 ** 62 - 4):
+            for ops in (['bi:aabb', 'bi:cc'], ['uni:aa', 'uni:-', 'uni:bbcc'], ['bi:-', 'uni:aa', 'bi:bb', 'uni:cc'], ['uni:aa', 'bi:bb']):
+                for wb in (0, 1, 3):
+                    for credit in (0, 1):
+                        out.append('wt.open2 %d %d %d %d %s' % (s, rng.choice([1, 1, 0]), wb, credit, ','.join(ops)))
         return out
 
     def two_stream_cases(self, tier, rng):
@@ -247,7 +331,7 @@ class P(Property):
 
     @staticmethod
     def _norm(out):
-        # pieces of delivered data are compared by concatenation against the spec
+        # delivered data is compared by concatenation: where h3 cuts the pieces it hands out is not part of the property
         w = out.split()
         for i, t in enumerate(w):
             if t.startswith('data='):
@@ -262,12 +346,68 @@ class P(Property):
         # a bidirectional stream that is not a WebTransport stream belongs to the request machinery (C02/C03)
         if len(w) >= 3 and w[2] == 'nowt':
             return ' '.join(w[:3])
-        return out
+        return self._norm(out)
+
+    @staticmethod
+    def _segments(line):
+        """'ok sess=8 #12 a b #14 c close=-' -> (['ok sess=8', 'close=-'], {'12': 'a b', '14': 'c'}); single-stream lines: one segment ''"""
+        w = line.split()
+        head, segs, cur, key = [], {}, None, None
+        for t in w:
+            if t.startswith('#') or t in ('A', 'B'):
+                if key is not None:
+                    segs[key] = ' '.join(cur)
+                key, cur = t, []
+            elif key is not None and t.startswith('close='):
+                segs[key] = ' '.join(cur)
+                key, cur = None, None
+                head.append(t)
+            elif key is not None:
+                cur.append(t)
+            else:
+                head.append(t)
+        if key is not None:
+            segs[key] = ' '.join(cur)
+        return head, segs
 
     def spec_ok(self, case, out, spec):
         if spec is None:
             return True
-        return spec_match(self._norm(self.canon(case, out)), self._norm(spec))
+        o, sp = self.canon(case, out), self._norm(spec)
+        fam = case.split()[0]
+        if fam in ('wt.sess', 'wt.open', 'wt.open2'):
+            return spec_match(o, sp)
+        sess = [t for t in sp.split() if t.startswith('sess=')]
+        sess = sess[0][5:] if sess else None
+
+        def words_ok(a, b):
+            a, b = a.split(), b.split()
+            return len(a) == len(b) and all(y == '*' or x == y or (y.endswith('=*') and x.startswith(y[:-1])) for x, y in zip(a, b))
+
+        def seg_ok(os_, ss):
+            if ss == '?':
+                return True
+            if words_ok(os_, ss):
+                return True
+            # a stream whose header names another session: attaching that id is what h3 does; not handing it to this
+            # session at all (a session filter) is equally within the statement
+            m = [t for t in ss.split() if t.startswith('sid=')]
+            if m and m[0][4:] != sess and os_.split()[:1] == ['nostream']:
+                return True
+            return False
+        if fam == 'wt.recv':
+            ow, sw = o.split(), sp.split()
+            if sw[-1:] == ['**']:
+                return spec_match(o, sp)
+            if len(ow) < 4 or len(sw) < 4:
+                return False
+            # ok sess=S <stream words> close=C stop=X
+            return ow[:2] == sw[:2] and ow[-2] == sw[-2] and seg_ok(' '.join(ow[2:-2] + ow[-1:]), ' '.join(sw[2:-2] + sw[-1:]))
+        oh, osg = self._segments(o)
+        sh, ssg = self._segments(sp)
+        if oh != sh or set(osg) != set(ssg):
+            return False
+        return all(seg_ok(osg[k], ssg[k]) for k in ssg)
 
     def nontrivial_key(self, case, impl_out):
         if not impl_out.startswith('ok sess='):
@@ -275,7 +415,7 @@ class P(Property):
         w = case.split()
         if w[0] == 'wt.recv' and 'c' not in [t[0] for t in w[7].split(',') if t]:
             return None
-        if w[0] == 'wt.recv2' and ':c' not in w[4]:
+        if w[0] in ('wt.recv2', 'wt.multi') and ':c' not in w[4]:
             return None
         return case
 
